@@ -15,12 +15,12 @@ def SPc.rem : SPc → Nat
 def CPc.rem : CPc → Nat
   | .lock => 15 | .cas => 14 | .unlockLost => 1 | .won => 1 | .returned _ => 0
 def WinPc.rem : WinPc → Nat
-  | .unlock => 11 | .closeRead => 10 | .closeDone => 9 | .notify => 8 | .spawn => 7 | .wait => 6
+  | .unlock => 12 | .closeRead => 11 | .closeDone => 10 | .setDl => 9 | .notify => 8 | .spawn => 7 | .wait => 6
   | .shutWrite => 5 | .setTerm => 4 | .closeOut => 3 | .clear => 2 | .finished => 0 | .dead => 0
 def WPc.rem : WPc → Nat
   | .idle => 6 | .writing _ => 5 | .select => 4 | .flushing _ => 3 | .flush => 2 | .wgDone => 1 | .exited => 0
 def RPc.rem : RPc → Nat
-  | .idle => 21 | .deliver _ => 20 | .checkExit => 19 | .reading => 18 | .closing _ c => 2 + c.rem
+  | .idle => 23 | .deliver _ => 22 | .checkExit => 21 | .arm => 20 | .chk => 19 | .reading => 18 | .closing _ c => 2 + c.rem
   | .wgDone => 1 | .exited => 0
 def winRem : Option Winner → Nat
   | some w => w.pc.rem
@@ -28,7 +28,7 @@ def winRem : Option Winner → Nat
 
 def mu (s : State) : Nat :=
   (s.snd.map SPc.rem).sum + (s.cls.map (fun c => c.pc.rem)).sum + winRem s.win +
-  (3 * s.out.length + s.w.rem) + (4 * s.peerIn.length + s.r.rem)
+  (3 * s.out.length + s.w.rem) + (6 * s.peerIn.length + s.r.rem)
 
 theorem sum_set {α : Type} (f : α → Nat) : ∀ (l : List α) (i : Nat) (x y : α), l[i]? = some x →
     ((l.set i y).map f).sum + f x = (l.map f).sum + f y
@@ -112,7 +112,8 @@ theorem measure_decreases {cfg : Cfg} {s s' : State} {a : Action} (hi : a.intern
     · simp at hs
   all_goals (first
     | (unfold stepWRecv at hs) | (unfold stepWDone at hs) | (unfold stepWWrite writeOne at hs)
-    | (unfold stepWFlush at hs) | (unfold stepWWgDone at hs) | (unfold stepRFrame at hs) | (unfold stepRErr at hs)
+    | (unfold stepWFlush at hs) | (unfold stepWWgDone at hs) | (unfold stepRArm at hs) | (unfold stepRChk at hs)
+    | (unfold stepRFrame at hs) | (unfold stepRErr at hs)
     | (unfold stepRNil at hs) | (unfold stepRPush at hs) | (unfold stepRDrop at hs) | (unfold stepRCheck at hs)
     | (unfold stepRWgDone at hs) | skip)
   all_goals (repeat' (split at hs))
